@@ -39,8 +39,25 @@ func dsl(backend string, port int) string {
 ingress   { listen "127.0.0.1:%d" }
 pull_api  { listen "127.0.0.1:%d"%s  auth token "raw:g1" }
 admin_api { listen "127.0.0.1:%d" }
+%s
 /r { queue { backend %s }  pull { path %s } }
-`, port, port+1, grpcListen, port+2, backend, endpoint)
+`, port, port+1, grpcListen, port+2, storeCfg.DSL, backend, endpoint)
+}
+
+// storeConfig: one configuration of the queue store under which the histories run (retention_test.go). The zero value is
+// the configuration of the other searches (no block in the file: an acknowledged message leaves the store).
+type storeConfig struct {
+	Name string
+	DSL  string
+	// what the configuration means for the contract model
+	DeliveredMaxAge time.Duration
+}
+
+// storeCfg is the configuration of the boots of this process (set per job process).
+var storeCfg storeConfig
+
+func modelCfg(backend string) qmodel.Config {
+	return qmodel.Config{SweepGranularity: sweep(backend), DeliveredMaxAge: storeCfg.DeliveredMaxAge}
 }
 
 // op of the search alphabet (pull API level).
@@ -304,6 +321,9 @@ func enabled(s st, hist []op) []op {
 	if restartFocus {
 		return enabledRestart(s)
 	}
+	if retentionFocus {
+		return enabledRetention(s)
+	}
 	ops := []op{{Kind: "deq", Batch: 1}, {Kind: "deq", Batch: 2}}
 	hs := make([]string, 0, len(s.M.Issued))
 	for h := range s.M.Issued {
@@ -557,7 +577,9 @@ func TestCheck(t *testing.T) {
 	budget := runner.Pick(r, 110*time.Second, 12*time.Minute)
 	shards := 12
 	const rshards = 3
-	njobs := len(backends)*shards + len(backends)*rshards // + restart-focus jobs
+	nret := len(backends) * len(retentionCfgs) * retShards
+	retFirst := len(backends)*shards + len(backends)*rshards
+	njobs := retFirst + nret // + restart-focus jobs + retained-row jobs (retention_test.go)
 	if ji, ok := runner.Job(); ok && ji >= njobs {
 		xportJob(r, t, backends, ji-njobs) // transport_test.go: the same operations over HTTP and gRPC, padded lease ids
 	}
@@ -565,7 +587,16 @@ func TestCheck(t *testing.T) {
 		label := ""
 		backend := ""
 		rootShard, rootShards := 0, shards
-		if ji >= len(backends)*shards {
+		vioPrefix := ""
+		if ji >= retFirst {
+			k := ji - retFirst
+			cfg := retentionCfgs[(k/retShards)%len(retentionCfgs)]
+			backend, rootShard, rootShards = backends[k/(retShards*len(retentionCfgs))], k%retShards, retShards
+			retentionFocus, storeCfg = true, cfg
+			label = "retained-rows/" + cfg.Name + "/"
+			vioPrefix = cfg.Name + ":"
+			depth[backend] = map[string]int{"memory": runner.Pick(r, 5, 7), "sqlite": runner.Pick(r, 4, 6)}[backend]
+		} else if ji >= len(backends)*shards {
 			restartFocus = true
 			label = "restart-focus/"
 			k := ji - len(backends)*shards
@@ -578,14 +609,14 @@ func TestCheck(t *testing.T) {
 		dir := filepath.Join(runner.Scratch(), "c04")
 		eng := &bfs.Engine[st, op]{
 			Name: "c04-" + backend, Workers: 1, MaxDepth: depth[backend], MaxTrans: runner.Pick(r, int64(2_000_000), int64(30_000_000)),
-			Deadline: time.Now().Add(budget), RootShard: rootShard, RootShards: rootShards,
+			Deadline: jobEnd(time.Now().Add(budget)), RootShard: rootShard, RootShards: rootShards,
 			Init: func() st {
 				return st{Remembered: map[string]int64{}, Presented: map[string]int64{}}
 			}, InitKey: "init", OpName: func(o op) string { return o.Kind },
 			Enabled: func(s st, hist []op) []op {
 				if s.M == nil {
 					// initial state: the model is created inside the first bubble (it needs the bubble's start instant)
-					m := qmodel.New(qmodel.Config{SweepGranularity: sweep(backend)}, bubbleStart.UnixNano())
+					m := qmodel.New(modelCfg(backend), bubbleStart.UnixNano())
 					m.Items["a"] = &qmodel.Msg{ID: "a", Route: "/r", Target: "pull", State: qmodel.Queued, ReceivedAt: m.Now, NextRunAt: m.Now, Payload: []byte("p-a"), SchemaVersion: 1}
 					m.Items["b"] = &qmodel.Msg{ID: "b", Route: "/r", Target: "pull", State: qmodel.Queued, ReceivedAt: m.Now, NextRunAt: m.Now, Payload: []byte("p-b"), SchemaVersion: 1}
 					s.M = m
@@ -602,7 +633,7 @@ func TestCheck(t *testing.T) {
 					}
 					defer func() { w.a.Shutdown() }()
 					if s.M == nil {
-						m := qmodel.New(qmodel.Config{SweepGranularity: sweep(backend)}, bubbleStart.UnixNano())
+						m := qmodel.New(modelCfg(backend), bubbleStart.UnixNano())
 						m.Items["a"] = &qmodel.Msg{ID: "a", Route: "/r", Target: "pull", State: qmodel.Queued, ReceivedAt: m.Now, NextRunAt: m.Now, Payload: []byte("p-a"), SchemaVersion: 1}
 						m.Items["b"] = &qmodel.Msg{ID: "b", Route: "/r", Target: "pull", State: qmodel.Queued, ReceivedAt: m.Now, NextRunAt: m.Now, Payload: []byte("p-b"), SchemaVersion: 1}
 						s.M = m
@@ -614,8 +645,11 @@ func TestCheck(t *testing.T) {
 					post := w.listing()
 					next, why := judge(s, o, ho, post)
 					res.Next, res.Violation, res.Label = next, why, fmt.Sprint(ho.Code)
+					if retentionFocus && why == "" {
+						retentionCount(s, o, ho)
+					}
 					if why != "" {
-						res.VioKey = fmt.Sprintf("%s:%s:%s", backend, o.Kind, firstWords(why))
+						res.VioKey = fmt.Sprintf("%s%s:%s:%s", vioPrefix, backend, o.Kind, firstWords(why))
 					}
 					// key: contract state + clock + remembered duplicates + issued leases (the pull server's cache is a
 					// function of these; the store state equals the validated model state)
@@ -678,7 +712,10 @@ func TestCheck(t *testing.T) {
 			for _, o := range v.Hist {
 				txt = append(txt, o.String())
 			}
-			r.Violation(v.Key, fmt.Sprintf("[%s] after %v, %s: %s", backend, txt, v.Op, v.Message), map[string]any{"engine": "bfs", "backend": backend, "history": v.Hist, "op": v.Op, "history_text": txt}, nil)
+			r.Violation(v.Key, fmt.Sprintf("[%s%s] after %v, %s: %s", vioPrefix, backend, txt, v.Op, v.Message), map[string]any{"engine": "bfs", "backend": backend, "store_config": storeCfg.Name, "history": v.Hist, "op": v.Op, "history_text": txt}, nil)
+		}
+		if retentionFocus {
+			retentionCoverage(r, label, res.Outcomes)
 		}
 		r.Finish()
 	}
@@ -687,8 +724,9 @@ func TestCheck(t *testing.T) {
 		// their start, but none runs past the end of the HTTP part
 		os.Setenv(xportEndEnv, fmt.Sprint(time.Now().Add(budget+10*time.Second).UnixNano()))
 		// (thorough: the HTTP jobs use their whole budget, so all jobs start together)
-		r.RunJobs(njobs+len(xjobs(backends)), runner.Pick(r, 30, 30+len(xjobs(backends))), budget+3*time.Minute)
+		r.RunJobs(njobs+len(xjobs(backends)), runner.Pick(r, 30+nret, 30+nret+len(xjobs(backends))), budget+3*time.Minute)
 	}
+	retentionRule(r)
 	schedPart(r, t)
 	pullDuplicates(r, t)
 	pullStaleDuplicates(r, t)
